@@ -121,3 +121,75 @@ Check (C09_summary_is_folded : forall fp o sizes inp ids outs sum data,
 Check (C09_chrom_keys_refuted : exists bs, bw_write ieee c09_wit_opts c09_wit_sizes c09_wit_input = Ok bs
     /\ decode bs (fun _ _ => None) = None
     /\ exists c, decode_lenient bs (fun _ _ => None) = Some c /\ map fc_name (c_chroms c) = [[97]; [66]]).
+
+(* ---- Part 4: bigBed ---- *)
+From BT Require Import Model.BigBedWrite Proofs.C09BedBlock Proofs.C09BedFile Proofs.C09BedZoom Proofs.C09BedWhole.
+From BT Require Model.BedSweep Proofs.BedQuery Proofs.BedImage Proofs.BedEndToEnd.
+From BT Require Import Spec.Depth Proofs.C09BedStats.
+From BT Require Proofs.BedSummary Proofs.BedTile Proofs.C06FileBed.
+Check (C09_bb_block_codec : forall chrom, chrom < W32 -> forall items fuel, Forall bentry_ok items ->
+  (length (flat_map (entry_bytes chrom) items) <= fuel)%nat ->
+  parse_bed_items false fuel (flat_map (entry_bytes chrom) items) = Some (map (brec_of chrom) items)).
+Check (C09_bb_decode_encode : forall fp o sizes autosql input bs inflate,
+  bb_write fp o sizes autosql input = Ok bs -> bed_hyps o sizes input bs ->
+  Forall (fun z => z < W32) (zoom_sizes_single o) ->
+  o_sort_all o = true ->
+  exists fc ids outs kept,
+    bb_schema autosql = Ok (stored_autosql autosql, fc) /\ bb_collect o sizes input = Ok (ids, outs)
+    /\ incl kept (zoom_sizes_single o) /\ inc_from 0 kept /\ Nlen kept <= 10
+    /\ Forall (level_runs fp o outs) kept
+    /\ decode bs inflate = Some (bed_content_of fp o sizes input (stored_autosql autosql) fc ids outs kept)).
+Check (C09_bb_decode_encode_multipass : forall fp o sizes autosql input bs inflate,
+  bb_write_multipass fp o sizes autosql input = Ok bs -> bed_hyps o sizes input bs ->
+  manual_u32 o ->
+  o_sort_all o = true ->
+  exists fc ids outs kept,
+    bb_schema autosql = Ok (stored_autosql autosql, fc) /\ bb_collect o sizes input = Ok (ids, outs)
+    /\ inc_from 0 kept /\ Nlen kept <= 10
+    /\ Forall (level_runs fp o outs) kept
+    /\ decode bs inflate = Some (bed_content_of fp o sizes input (stored_autosql autosql) fc ids outs kept)).
+Check (C09_bb_decode_encode_lenient : forall fp o sizes autosql input bs inflate,
+  bb_write fp o sizes autosql input = Ok bs \/ bb_write_multipass fp o sizes autosql input = Ok bs ->
+  bed_hyps o sizes input bs ->
+  Forall (fun z => z < W32) (zoom_sizes_single o) -> manual_u32 o ->
+  exists fc ids outs kept,
+    bb_schema autosql = Ok (stored_autosql autosql, fc) /\ bb_collect o sizes input = Ok (ids, outs)
+    /\ inc_from 0 kept /\ Nlen kept <= 10
+    /\ Forall (level_runs fp o outs) kept
+    /\ decode_lenient bs inflate = Some (bed_content_of fp o sizes input (stored_autosql autosql) fc ids outs kept)).
+Check (C09_bb_records_are_input : forall o sizes input ids outs,
+  bb_collect o sizes input = Ok (ids, outs) -> brecs_of outs = bed_input_records ids input).
+Check (C09_bb_outs_are_runs : forall o sizes input ids outs, bb_collect o sizes input = Ok (ids, outs) ->
+  map (fun c => (bc_name c, bc_entries c)) outs = bruns input
+  /\ map bc_id outs = seqN 0 (length (bruns input))
+  /\ ids = combine (map fst (bruns input)) (seqN 0 (length (bruns input)))
+  /\ NoDup (map fst (bruns input))
+  /\ BedQuery.untag (bruns input) = input
+  /\ Forall (fun c => lookup (bc_name c) sizes = Some (bc_len c)) outs).
+Check (C09_bb_blocks : forall ips (outs : list bchrom), 1 <= ips ->
+  Forall (fun g : N * list entry => 1 <= Nlen (snd g) <= ips) (BedImage.gsecs ips (BedEndToEnd.groups_of outs))
+  /\ concat (map (fun g : N * list entry => map (brec_of (fst g)) (snd g)) (BedImage.gsecs ips (BedEndToEnd.groups_of outs))) = brecs_of outs).
+Check (C09_bb_summary_is_sweep : forall fp o sizes input ids outs, bb_collect o sizes input = Ok (ids, outs) ->
+  bb_sweep fp outs = BedSweep.bb_total_summary fp (map (fun r : name * list entry => map to_sw (snd r)) (bruns input))).
+Check (C09_bb_level_is_records : forall fp o outs size, level_runs fp o outs size ->
+  exists per : list (list (list zrec)),
+    Forall2 (fun c recs => BedSweep.bb_zoom_records fp (o_ips o) size (bc_id c) (sw_entries c) = Ok recs) outs per
+    /\ bb_level_content fp o outs size = (size, map (zr_view fp) (concat (concat per)))).
+Check (C09_bb_zoom_sections_sized : forall fp ips size chrom es secs, 1 <= ips ->
+  BedSweep.bb_zoom_records fp ips size chrom es = Ok secs -> Forall (fun rs : list zrec => rs <> [] /\ Nlen rs <= ips) secs).
+Check (C09_bb_summary_statistics : forall U o sizes input ids outs,
+  bb_collect o sizes input = Ok (ids, outs) -> U <= BedSweep.U32_MAX -> Forall (fun it : bitem => e_end (snd it) <= U) input ->
+  let chroms := C06FileBed.chroms_of input in
+  BedSummary.sform (bb_sweep exact outs)
+    (Nlen input) (sumN (map (BedSummary.c_cov U) chroms)) (sumN (map (BedSummary.c_sum U) chroms))
+    (sumN (map (BedSummary.c_sumsq U) chroms))
+    (fold_left (fun a es => opt_meet N.min a (BedSummary.c_min U es)) chroms None)
+    (fold_left (fun a es => opt_meet N.max a (BedSummary.c_max U es)) chroms None)).
+Check (C09_bb_level_statistics : forall o sizes input ids outs size c,
+  bb_collect o sizes input = Ok (ids, outs) -> opts_ok o -> bed_input_ok input -> Nlen (bruns input) < W16 ->
+  Forall (fun s : name * N => snd s < W32) sizes ->
+  1 <= size -> In c outs ->
+  exists secs, BedSweep.bb_zoom_records exact (o_ips o) size (bc_id c) (sw_entries c) = Ok secs
+    /\ chrom_rsecs exact (o_ips o) size c = secs
+    /\ Forall (BedTile.zstats_spec (depth (sw_entries c))) (concat secs)
+    /\ (forall x, 0 < depth (sw_entries c) x -> BedTile.covered_by (concat secs) x)).
